@@ -1029,6 +1029,18 @@ class Interp:
             if isinstance(expr, ast.Call):
                 if ast.unparse(expr.func) == "re.compile" and len(expr.args) == 1 and isinstance(expr.args[0], ast.Constant) and isinstance(expr.args[0].value, str) and not expr.keywords:
                     return Obj(None, {"pattern": Const(expr.args[0].value)}, label=f"re.Pattern({expr.args[0].value!r})")
+                if isinstance(expr.func, ast.Name) and expr.func.id in ("tuple", "list", "dict", "frozenset", "set", "sorted"):
+                    # a module-level table built from literals (e.g. a tuple of precompiled patterns): evaluated once
+                    gc = self.__dict__.setdefault("_globals", {})
+                    key = (mod.name, name)
+                    if key not in gc:
+                        n_ev = len(self.events)
+                        try:
+                            gc[key] = self.eval_in_module(mod, expr)
+                        except Undecided:
+                            gc[key] = Term("global", f"{mod.name}.{name}")
+                        del self.events[n_ev:]
+                    return gc[key]
                 hint = self.p.resolve_class(mod, expr.func)
                 return Term("global", f"{mod.name}.{name}", hint=hint)
             # module-level mutable objects (caches, registries) are one object per interpreter run
@@ -1904,6 +1916,29 @@ class Interp:
                 keys = [sk(x) for x in items]
                 if all(k is not None for k in keys):
                     return Lst([x for _, x in sorted(zip(keys, items), key=lambda t: t[0])])
+        if name == "dict" and len(args) <= 1:
+            # dict(), dict(mapping), dict(iterable of pairs), each optionally with keyword items
+            out = Dct()
+            okd = True
+            if args:
+                src_ = args[0]
+                if isinstance(src_, Dct):
+                    for k_, v_ in src_.pairs:
+                        out.set(k_, v_)
+                else:
+                    items = self.concrete_iter(src_)
+                    if items is None:
+                        okd = False
+                    else:
+                        for x in items:
+                            if isinstance(x, (Tup, Lst)) and len(x.items) == 2:
+                                out.set(x.items[0], x.items[1])
+                            else:
+                                okd = False
+            if okd:
+                for k_, v_ in kwargs.items():
+                    out.set(Const(k_), v_)
+                return out
         if name in ("frozenset", "set") and len(args) <= 1:
             if not args:
                 return Tup([])
